@@ -20,12 +20,12 @@ Proof.
 Qed.
 
 (* ---------- padding *)
-Lemma ncols_ge s r : In r s -> (length r <= ncols s)%nat.
+Lemma ncols_ge {A} (s : list (list A)) r : In r s -> (length r <= ncols s)%nat.
 Proof.
   induction s as [|x s IH]; intros H; [contradiction|]. unfold ncols. cbn [fold_right]. fold (ncols s).
   destruct H as [->|H]; [apply Nat.le_max_l|]. etransitivity; [apply IH; exact H|apply Nat.le_max_r].
 Qed.
-Lemma trim_rows_incl s r : In r (trim_rows s) -> In r s.
+Lemma trim_rows_incl {A} (s : list (list A)) r : In r (trim_rows s) -> In r s.
 Proof.
   revert r. induction s as [|x s IH]; intros r H; [contradiction|]. cbn [trim_rows] in H.
   destruct (trim_rows s) as [|t ts] eqn:E.
@@ -143,4 +143,20 @@ Proof.
     rewrite map_map, map_map. rewrite <- (map_id t) at 2. apply map_ext_in. intros r Hr.
     rewrite map_pad_row. unfold pad_row. rewrite Forall_forall in H. pose proof (H r Hr) as E. unfold text in *. rewrite E, Nat.sub_diag. apply app_nil_r.
   - apply Forall_forall. intros r Hin. rewrite Forall_forall in Hl. specialize (Hl r Hin). destruct r; [cbn in Hl; lia|discriminate].
+Qed.
+
+(* any table - ragged rows, rows without cells - written with the xlsx row writer reads back padded to its widest row and
+   without trailing rows that have no cells: all a spreadsheet can keep of it *)
+Lemma ncols_map {A B} (f : A -> B) (t : list (list A)) : ncols (map (map f) t) = ncols t.
+Proof. induction t as [|r t IH]; [reflexivity|]. unfold ncols in *. cbn [map fold_right]. rewrite map_length, IH. reflexivity. Qed.
+Lemma trim_rows_map {A B} (f : A -> B) (t : list (list A)) : trim_rows (map (map f) t) = map (map f) (trim_rows t).
+Proof.
+  induction t as [|r t IH]; [reflexivity|]. cbn [map trim_rows]. rewrite IH.
+  destruct (trim_rows t) as [|x xs]; cbn [map]; [destruct r; reflexivity|reflexivity].
+Qed.
+Theorem xlsx_roundtrip_general (t : list (list text)) :
+  excel_rows (xlsx_written t) 1 = Some (map (pad_row [] (ncols t)) (trim_rows t)).
+Proof.
+  unfold excel_rows, xlsx_written. cbn [Nat.sub nth_error]. f_equal. unfold grid.
+  rewrite ncols_map, trim_rows_map, !map_map. apply map_ext. intros r. apply map_pad_row.
 Qed.
